@@ -212,6 +212,7 @@ class Run:
             json.dump(replay, f, indent=1, default=str)
         rel = os.path.relpath(path, VERIF)
         self.violations.append(rel)
+        self.records = getattr(self, "records", []) + [replay]
         line = f"VIOLATION property={self.pid} replay={rel}"
         if suffix:
             line += " " + suffix
